@@ -18,6 +18,10 @@ TReread == /\ l <= Len(TraceLog) /\ TraceLog[l].e = "Reread" /\ TraceLog[l].id =
            /\ l' = l + 1 /\ UNCHANGED <<issued, started>>
 TNext == TStart \/ TCreate \/ TReread
 TSpec == TInit /\ [][TNext]_tvars
+\* the recorded execution is one line of events: position l determines the state, so the fingerprint need not hash the id set
+TView == l
+\* the "counterexample" printed on acceptance shows positions only (printing the id set per state is quadratic in the trace length)
+TAlias == [pos |-> l]
 \* violated exactly when the whole trace was consumed (used as INVARIANT: "violation" = accepted)
 NotAccepted == l <= Len(TraceLog)
 =============================================================================
